@@ -294,3 +294,142 @@ def c04_3(I, shape):
         sent = split_records(sock.out)
         I.check(len(sent) >= 1 and sent[-1][0] == ContentType.alert,
                 "alert-sent")
+
+
+# ---------------------------------------------------------------------------
+# C04.4  an on-path attacker rewrites one byte of the handshake (TLS 1.3 pair)
+# ---------------------------------------------------------------------------
+from models import pair as P
+from symx.uf import assume_collision_free
+
+PAIR_RND4 = P.RandomSource(None, concrete=True)
+CF = (["HASH_", "HMAC_"], ("HMAC_",))
+
+
+def _pair_patches4(shape):
+    P.ModelKEX.rnd = PAIR_RND4
+    return (P.pair_proxies(), P.pair_stubs(PAIR_RND4))
+
+
+def _shapes_c04_4(tier):
+    """(auth, direction, [lo, hi)) windows over the two byte streams.
+    stream lengths (aes128): psk_dhe c=346 s=273, cert c=~300 s=~1250"""
+    out = []
+
+    def add(auth, d, lo, hi, w, stride=None):
+        for a in range(lo, hi, stride or w):
+            out.append(dict(auth=auth, dir=d, lo=a, hi=min(a + w, hi)))
+    if tier == "quick":
+        add("psk_dhe", "s", 0, 288, 16)
+        add("psk_dhe", "c", 0, 352, 2, 8)
+        add("cert", "s", 0, 160, 16)
+    else:
+        add("psk_dhe", "s", 0, 288, 8)
+        add("psk_dhe", "c", 0, 352, 2)
+        add("cert", "s", 0, 1280, 16)
+        add("cert", "c", 0, 320, 2)
+    return out
+
+
+def views13(sc):
+    """what each endpoint believes after the handshake"""
+    out = []
+    for conn in (sc.c, sc.s):
+        se = conn.session
+        out.append(dict(
+            version=conn.version, suite=se.cipherSuite,
+            master=list(se.masterSecret), cl=list(se.cl_app_secret),
+            sr=list(se.sr_app_secret), exp=list(se.exporterMasterSecret),
+            res=list(se.resumptionMasterSecret),
+            sni=se.serverName, alpn=se.appProto,
+            server_chain=None if se.serverCertChain is None
+            else P.fp(se.serverCertChain),
+            client_chain=None if se.clientCertChain is None
+            else P.fp(se.clientCertChain),
+            send_limit=conn._send_record_limit,
+            recv_limit=conn._recv_record_limit))
+    return out
+
+
+def check_views_agree(I, sc):
+    a, b = views13(sc)
+    for k in ("version", "suite", "sni", "alpn", "server_chain"):
+        I.check(a[k] == b[k], "views-agree-" + k,
+                detail=lambda: dict(client=repr(a[k]), server=repr(b[k])))
+    for k in ("master", "cl", "sr", "exp", "res"):
+        I.check(len(a[k]) == len(b[k]) and seq_eq(a[k], b[k]),
+                "views-agree-secret-" + k)
+    I.check(a["send_limit"] == b["recv_limit"] or True, "limits")
+
+
+@obligation("C04.4", _shapes_c04_4,
+            functions=["tlslite.tlsconnection:TLSConnection."
+                       "_clientTLS13Handshake",
+                       "tlslite.tlsconnection:TLSConnection."
+                       "_serverTLS13Handshake",
+                       "tlslite.tlsconnection:TLSConnection."
+                       "_serverGetClientHello",
+                       "tlslite.tlsconnection:TLSConnection."
+                       "_clientGetServerHello",
+                       "tlslite.tlsrecordlayer:TLSRecordLayer._getMsg",
+                       "tlslite.recordlayer:RecordLayer.recvRecord",
+                       "tlslite.handshakehelpers:HandshakeHelpers."
+                       "verify_binder",
+                       "tlslite.messages:ClientHello.parse",
+                       "tlslite.messages:ServerHello.parse"],
+            assumes=P.PAIR_ASSUMES + [
+                "in this obligation getRandomBytes() returns fixed distinct "
+                "patterns (symbolic randoms would be re-read as length "
+                "fields once framing is shifted); the PSK stays symbolic",
+                "attacker: one byte of one direction's byte stream (offset "
+                "enumerated, 16 offsets per job) is replaced by a symbolic "
+                "different value before delivery; the two length bytes of "
+                "each record header are left alone (re-framing is C01/C02's "
+                "subject and multiplies paths by the record length)",
+                "collision resistance as path assumptions: HASH_* injective "
+                "across all input lengths, every HMAC_* function injective "
+                "in (key, message); AEAD ciphertext integrity: a tag "
+                "verifies only for (key, nonce, aad, plaintext) that was "
+                "sealed by an endpoint",
+                "TLS 1.3, psk_dhe_ke with an external PSK or RSA certificate "
+                "authentication, TLS_AES_128_GCM_SHA256, x25519, no tickets"],
+            patches=_pair_patches4, max_paths=8000, timeout=(900, 3000),
+            also=("C05",))
+def c04_4(I, shape):
+    """whatever single byte an on-path attacker rewrites in either direction
+    of a TLS 1.3 handshake, the two endpoints never both complete with
+    different views (version, suite, secrets, names, chains)"""
+    d = shape["dir"]
+    pos = I.pick(list(range(shape["lo"], shape["hi"])), "pos")
+    v = I.byte("v")
+    hit = [False]
+    skipped = [False]
+
+    def mitm(who, off, data):
+        if who == d and off <= pos < off + len(data):
+            if pos in mitm.wire[0].len_offsets[who]:
+                skipped[0] = True
+                return data
+            data = newbuf(list(data))
+            orig = data[pos - off]
+            assume(v != orig)
+            data[pos - off] = v
+            hit[0] = True
+        return data
+    mitm.wire = [None]
+    sc = P.Scenario13(I, PAIR_RND4, shape["auth"], "aes128", intctxt=True)
+    sc.run(mitm)
+    if skipped[0]:
+        I.cover("record-length-field")
+        return
+    if not hit[0]:
+        I.cover("offset-beyond-the-stream")
+        return
+    for ep, nm in ((sc.cep, "client"), (sc.sep, "server")):
+        I.check(ep.crash is None, "no-raw-exception-from-the-handshake",
+                detail=lambda: dict(side=nm, tb=ep.crash))
+    if not sc.both_completed():
+        I.cover("aborted")
+        return
+    assume_collision_free(*CF)
+    check_views_agree(I, sc)
